@@ -1107,7 +1107,8 @@ class SourceFinder(object):
             else:
                 positions = [[kappa_sigma.shape[0] / 2],
                              [kappa_sigma.shape[1] / 2]]
-            xy = positions[0][0] + xmin, positions[1][0] + ymin
+            # pix2sky works in FITS (1-based) pixel coordinates
+            xy = positions[0][0] + xmin + 1, positions[1][0] + ymin + 1
             radec = global_data.wcshelper.pix2sky(xy)
             source.ra = radec[0]
 
